@@ -8,6 +8,9 @@ NA_ALL = {
  'C15': 'Circuit shape / pinned Groth16 keys: needs Groth16 proving and pairing evaluation on concrete keys (whole-program runs through ark-groth16, no symbolic content) and a dataflow statement about arkworks\' synthesiser; no solver verdict over the real code is within reach (DESIGN §4).',
 }
 CHECKS = {
+ 'C17': dict(level='proof', technique='constant bodies evaluated on the MIR by the interpreter; each defining equation is a closed SMT formula (modular powers as squaring chains) decided by z3',
+      text='Each published constant (inherent, wrapper-level for both wrappers, trait-associated, curve configuration, Lazy statics) is obtained by evaluating its real MIR body, and its defining equation (recomputed from the modulus / curve parameters alone) is discharged by z3 as a ground formula; both builds.',
+      note='Trusted: the primes and documented small generators from the specification; MIR semantics as modelled; r prime.', ref='§3 C17'),
  'C03': dict(level='proof', technique='symbolic execution of the MIR (POLY domain): encode == specification encoder by z3 polynomial identities; representation independence by z3-checked cofactor certificates',
       text='vartime_compress_to_field of both builds is executed on the MIR with symbolic (X,Y,Z,T) and shown identical to the specification encoder on every sign/squareness path; invariance under projective rescaling, under the coset shift (-X,-Y,Z,T) and on both identity representatives is shown by running the code twice and proving the two results equal (identities, or ideal-membership certificates checked by z3 on paths with zero hypotheses).',
       note='Trusted: MIR semantics as modelled, contract S (C09) plus the derived scaling lemma, arkworks where delegated; injectivity is the Decaf theorem (not decided).', ref='§3 C03'),
